@@ -14,7 +14,8 @@ Require Import RV.Lib.PyStr RV.Model.ContentLine RV.Model.Vobj RV.Model.C14Spec 
 Require Import RV.Proofs.ExportProofs RV.Proofs.SplitProofs RV.Proofs.RegroupProofs RV.Proofs.UnfixedProofs.
 Require RV.Proofs.LinesProofs RV.Proofs.QpProofs RV.Proofs.TextProofs RV.Proofs.CleanupProofs RV.Proofs.TreeProofs RV.Proofs.C14Final
         RV.Proofs.CanonProofs RV.Proofs.FixedPointProofs RV.Proofs.SplitCrlfProofs
-        RV.Proofs.CodecProofs RV.Proofs.Utf8Proofs RV.Proofs.ZeroDurationProofs.
+        RV.Proofs.CodecProofs RV.Proofs.Utf8Proofs RV.Proofs.ZeroDurationProofs RV.Proofs.UidAssignProofs.
+Require Import RV.Model.UidAssign.
 Require Import RV.Model.Codec.
 Require RV.Gen.C14EncSites.
 Open Scope N_scope.
@@ -370,3 +371,25 @@ Theorem C14_storage_cold_serve : forall c text b, codec_ok c -> file_bytes c tex
   match cold_text c c text with Some t => reload_model t | None => None end = reload_model text.
 Proof. exact CodecProofs.cold_serve_is_reload. Qed.
 Print Assumptions C14_storage_cold_serve.
+
+(* ---------------------------------------------------------------------------------------------------------------
+   Whole-collection upload: an object without a usable UID (no UID property, or an empty first one) gets a generated
+   one.  After the step the first UID is non-empty, the number of UID properties is max 1 (old number) -- an empty UID
+   property is FILLED, not doubled --, every other child is untouched, objects with a UID are untouched, and the
+   step is idempotent (so the stored object is accepted again as it is).  The "always add" shape is refuted. *)
+Theorem C14_generated_uid : forall fresh ch, fresh <> [] ->
+  first_uid (assign_uid fresh ch) <> [] /\
+  List.length (lines_named s_UID (assign_uid fresh ch)) = Nat.max 1 (List.length (lines_named s_UID ch)) /\
+  drop_named s_UID (assign_uid fresh ch) = drop_named s_UID ch /\
+  (first_uid ch <> [] -> assign_uid fresh ch = ch).
+Proof. exact UidAssignProofs.assign_uid_spec. Qed.
+Print Assumptions C14_generated_uid.
+Theorem C14_generated_uid_idempotent : forall f f' ch, f <> [] -> assign_uid f' (assign_uid f ch) = assign_uid f ch.
+Proof. exact UidAssignProofs.assign_uid_idem. Qed.
+Print Assumptions C14_generated_uid_idempotent.
+Theorem C14_generated_uid_always_add_refuted :
+  let card := [L (mkCl None [70; 78] [] [65]); L (mkCl None s_UID [] [])] in
+  first_uid (assign_uid_always_add [120] card) = [] /\ uid_values (assign_uid_always_add [120] card) = [[]; [120]] /\
+  uid_values (assign_uid [120] card) = [[120]].
+Proof. exact UidAssignProofs.assign_uid_always_add_refuted. Qed.
+Print Assumptions C14_generated_uid_always_add_refuted.
